@@ -35,6 +35,9 @@ def jobs(tier, seed):
         for sel in sels:
             out.append({'name': 'xtab2d-%dx%d-%s-%s' % (shp[0], shp[1], agg, sel), 'kind': '2d', 'shape': list(shp), 'agg': agg, 'sel': sel})
     # +-inf cells in the values raster are not valid cells (neither counted nor part of the percentage base)
+    # integer zones and integer categories (the usual land-cover case)
+    out.append({'name': 'xtab2d-1x3-count-none-int', 'kind': '2d', 'shape': [1, 3], 'agg': 'count', 'sel': 'none', 'zdtype': 'int32', 'vdtype': 'int32'})
+    out.append({'name': 'xtab2d-1x2-percentage-cat1-int', 'kind': '2d', 'shape': [1, 2], 'agg': 'percentage', 'sel': 'cat1', 'zdtype': 'uint8', 'vdtype': 'int64'})
     out.append({'name': 'xtab2d-1x2-count-none-inf', 'kind': '2d', 'shape': [1, 2], 'agg': 'count', 'sel': 'none', 'inf': True})
     out.append({'name': 'xtab2d-1x3-percentage-none-inf', 'kind': '2d', 'shape': [1, 3], 'agg': 'percentage', 'sel': 'none', 'inf': True})
     for agg in ('count', 'sum', 'mean', 'max', 'min'):
@@ -59,7 +62,8 @@ def body(ctx, job):
     n = h * w
     sel = job['sel']
     agg = job['agg']
-    zones_d = ctx.array('z', (h, w), 'float64', nan=False)
+    zdt, vdt = job.get('zdtype', 'float64'), job.get('vdtype', 'float64')
+    zones_d = ctx.array('z', (h, w), zdt, nan=False, **({'lo': 0 if zdt[0] == 'u' else -2, 'hi': 3} if zdt[0] in 'iu' else {}))
     zones = raster(zones_d, name='zones')
     zl = zones_d.flat_values()
     nodata = ctx.real('nodata')
@@ -70,7 +74,7 @@ def body(ctx, job):
         if len(zone_ids) == 2:
             ctx.assume(zone_ids[0] != zone_ids[1])
     if job['kind'] == '2d':
-        vals_d = ctx.array('v', (h, w), 'float64', nan=True, inf=bool(job.get('inf')))
+        vals_d = ctx.array('v', (h, w), vdt, nan=True, inf=bool(job.get('inf')), **({'lo': -2, 'hi': 3} if vdt[0] in 'iu' else {}))
         values = raster(vals_d, name='values')
         vl = vals_d.flat_values()
         if sel in ('cat1', 'cat2', 'both'):
